@@ -390,6 +390,14 @@ func (fc *FuncCtx) coerce(st *State, v Val, to types.Type) *Term {
 	if v.T.Sort.Eq(ts) {
 		return v.T
 	}
+	if v.T.Op == "nil" && len(v.T.Args) == 0 {
+		switch ts.Kind {
+		case "Slice":
+			return MkSlice(&Term{Op: "const-array", Args: []*Term{fc.zeroElem(ts.Elem)}, Sort: ArrayOf(SInt, ts.Elem)}, IntLit(0))
+		case "Map":
+			return fc.emptyMap(ts, "nil")
+		}
+	}
 	if ts.Kind == "V" {
 		return App("box$"+strings.NewReplacer("(", "", ")", "", " ", "_").Replace(v.T.Sort.String()), SV, v.T)
 	}
@@ -456,6 +464,7 @@ func (fc *FuncCtx) evalSelector(st *State, x *ast.SelectorExpr) Val {
 			l := fc.fieldLoc(st, base, sel, x.Pos())
 			t := fc.readLoc(st, l)
 			st.assume(fc.typeFacts(t, l.Typ))
+			fc.existing(st, t, l.Typ)
 			return Val{T: t, Typ: l.Typ}
 		case types.MethodVal:
 			base := fc.evalExpr(st, x.X)
@@ -871,8 +880,7 @@ func (fc *FuncCtx) evalComposite(st *State, x *ast.CompositeLit, typ types.Type)
 	}
 	switch tt := under.(type) {
 	case *types.Struct:
-		ref := fc.freshConst("new", SV)
-		st.assume(Not(Eq(ref, Const("nil", SV))))
+		ref := fc.newRef(st, "new")
 		set := map[int]bool{}
 		for i, el := range x.Elts {
 			var f *types.Var
@@ -914,7 +922,13 @@ func (fc *FuncCtx) evalComposite(st *State, x *ast.CompositeLit, typ types.Type)
 			elemT = tt.(*types.Array).Elem()
 		}
 		es := fc.sortOf(elemT)
-		arr := fc.freshConst("lit", ArrayOf(SInt, es))
+		var arr *Term
+		// elements beyond the length are never observable: use a canonical base so that equal literals are equal terms
+		if z := fc.zeroVal(elemT, "lit"); z.Op == "lit" || z.Op == "nil" {
+			arr = &Term{Op: "const-array", Args: []*Term{z}, Sort: ArrayOf(SInt, es)}
+		} else {
+			arr = fc.freshConst("lit", ArrayOf(SInt, es))
+		}
 		n := int64(0)
 		cur := arr
 		for _, el := range x.Elts {
